@@ -302,3 +302,17 @@ _ext("C12", "Aead AeadRoundTripRtcp AeadRoundTripRtp",
   ("", "AeadRoundTripRtcp.v", "unprotect_rtcp_aead_alias_independent"),
   ("senders: the wire image does not depend on the alias mode or the prefill", "AeadRoundTripRtp.v", "protect_aead_wire"),
   ("", "AeadRoundTripRtcp.v", "protect_rtcp_aead_wire")], _AEAD_NOTE)
+
+_ext("C03", "Aead AeadIvProofs",
+ [("AES-GCM (RFC 7714 8.1): the model's SRTP IV equals an independent arithmetic specification (0x0000 || SSRC || ROC || SEQ xor salt), Spec/Rfc7714.v, which reproduces the RFC's section 16.1.1 / 17.1 packets", "AeadIvProofs.v", "aead_rtp_iv_spec"),
+  ("AES-GCM (RFC 7714 9.1): SRTCP IV", "AeadIvProofs.v", "aead_rtcp_iv_spec"),
+  ("AES-GCM AAD: header incl. CSRCs and extension (SRTP); 8-octet header or whole packet, then the E||index word (SRTCP)", "AeadIvProofs.v", "rtp_aad_model"),
+  ("", "AeadIvProofs.v", "rtcp_aad_model")], _AEAD_NOTE)
+_ext("C12", "AeadProtectFun AeadCryptexOop",
+ [("AES-GCM: srtp_protect_aead refines a pure function at every exit (streams without cryptex, RFC 6904 allowed)", "AeadProtectFun.v", "protect_aead_refines"),
+  ("", "AeadProtectFun.v", "protect_aead_alias_independent"),
+  ("AES-GCM with cryptex: in place and out of place agree EXCEPT for the documented refusal (cryptex in use, out of place, CSRCs), stated exactly", "AeadProtectFun.v", "protect_aead_alias_cx"),
+  ("AES-GCM: cryptex together with RFC 6904, out of place: alias dependent also under GCM (same known finding)", "AeadCryptexOop.v", "protect_aead_alias_cryptex_xtn_refuted")], "")
+_ext("C01", "AeadProtectFun AeadCryptexOop",
+ [("AES-GCM with cryptex, every mode the library supports (sender either mode, receiver in place or out of place without CSRCs)", "AeadCryptexOop.v", "rtp_aead_cryptex_protect_unprotect"),
+  ("evaluated: cryptex together with RFC 6904 under GCM round-trips in place since fix 1e38386", "AeadCryptexOop.v", "gcm_cryptex_xtn_inplace_round_trip")], "")
